@@ -159,8 +159,93 @@ class _G:
       o += ml
     o.append(f"{self.nm('flat')} = {C}" + "  # class alias")
 
+  # -- generic classes with several parameterised bases -------------------------------
+  def generics(self):
+    """`class Rec(Tagged[T], Keyed[S, T])` & co.  What A itself infers for members read through
+    an instance (`k = rec.get_key()`) is paired with the same expression for the downstream."""
+    r = self.r
+    o = self.out
+    T, S = self.nm("T"), self.nm("S")
+    Tag, Key, Rec = self.nm("Tagged"), self.nm("Keyed"), self.nm("Record")
+    tag, key, val = self.nm("tag"), self.nm("key"), self.nm("val")
+    gt, gk, gv = self.nm("get_tag"), self.nm("get_key"), self.nm("get_val")
+    o += [f"{T} = TypeVar('{T}')", f"{S} = TypeVar('{S}')",
+          f"class {Tag}(Generic[{T}]):",
+          f"    {tag}: {T}",
+          f"    def {gt}(self) -> {T}:",
+          f"        return self.{tag}",
+          f"class {Key}(Generic[{S}, {T}]):",
+          f"    {key}: {S}",
+          f"    {val}: {T}",
+          f"    def {gk}(self) -> {S}:",
+          f"        return self.{key}",
+          f"    def {gv}(self) -> {T}:",
+          f"        return self.{val}"]
+    # the first shape has a TypeVar heading an earlier base's list and in the tail of a later one
+    shape = r.choice(["head-in-later-tail", "head-in-later-tail", "head-in-later-tail", "benign"])
+    if shape == "head-in-later-tail":
+      bases = f"{Tag}[{T}], {Key}[{S}, {T}]"
+    else:
+      bases = f"{Key}[{S}, {T}], {Tag}[{T}]"
+    o += [f"class {Rec}({bases}):",
+          f"    def __init__(self, {key}: {S}, {val}: {T}):",
+          f"        self.{key} = {key}",
+          f"        self.{val} = {val}",
+          f"        self.{tag} = {val}"]
+    kinds = [("int", "1"), ("str", "'one'"), ("bytes", "b'b'"), ("float", "2.5"), ("bool", "True")]
+    (ka, va), (kb, vb) = r.sample(kinds, 2)
+    rec = self.nm("rec")
+    o.append(f"{rec} = {Rec}({va}, {vb})")
+    for label, expr in (("k", f"{rec}.{gk}()"), ("v", f"{rec}.{gv}()"), ("t", f"{rec}.{gt}()"),
+                        ("ka", f"{rec}.{key}"), ("ta", f"{rec}.{tag}")):
+      n = self.nm("rec_" + label)
+      o.append(f"{n} = {expr}")
+      self.pairs.append((n, "{M}." + expr))
+    (kc, vc), (kd, vd) = r.sample(kinds, 2)
+    mk = self.nm("make")
+    o += [f"def {mk}(n: {kc}) -> {Rec}[{kc}, {kd}]:",
+          f"    return {Rec}(n, {vd})"]
+    for label, meth in (("k", gk), ("t", gt)):
+      n = self.nm("made_" + label)
+      o.append(f"{n} = {mk}({vc}).{meth}()")
+      self.pairs.append((n, "{M}." + f"{mk}({vc}).{meth}()"))
+
+  # -- values typed by parameterised classes of a third module (bundled `collections`) ----
+  def collections_block(self):
+    r = self.r
+    o = self.out
+    elems = [("1, 2", "int"), ("'a', 'b'", "str"), ("b'x'", "bytes"), ("1.5", "float")]
+    e1, _ = r.choice(elems)
+    e2, _ = r.choice(elems)
+    e3, a3 = r.choice(elems)
+    q, dd, od, Buf, cattr, items, buf, mk, grp = (self.nm(x) for x in (
+        "queue", "counts", "ordered", "Buffer", "pending", "items", "buf", "mkq", "group"))
+    o += [f"{q} = collections.deque([{e1}])",
+          f"{dd} = collections.defaultdict(int)",
+          f"{dd}['k'] += 1",
+          f"{od} = collections.OrderedDict([('k', {e2.split(',')[0]})])",
+          f"class {Buf}:",
+          f"    {cattr} = collections.deque([{e2}])",
+          f"    def __init__(self):",
+          f"        self.{items} = collections.deque([{e3}])",
+          f"{buf} = {Buf}()",
+          f"def {mk}(x: {a3}):",
+          f"    return collections.deque([x])",
+          f"def {grp}(word: str):",
+          f"    out = collections.defaultdict(list)",
+          f"    out[word].append(len(word))",
+          f"    return out"]
+    for label, expr in (("head", f"{q}[0]"), ("item", f"{buf}.{items}[0]"), ("pend", f"{buf}.{cattr}"),
+                        ("made", f"{mk}({e3.split(',')[0]})"), ("grouped", f"{grp}('w')"),
+                        ("cnt", f"{dd}['k']")):
+      n = self.nm(label)
+      o.append(f"{n} = {expr}")
+      self.pairs.append((n, "{M}." + expr))
+
   def build(self):
     r = self.r
+    self.pairs = []
+    self.out += ["import collections", "from typing import Generic, TypeVar"]
     # every default/required order of two and three keyword-only parameters shows up regularly
     patterns = [[True, False], [False, True], [True, True], [False, False],
                 [True, False, True], [False, True, False], [True, True, False], [True, False, False]]
@@ -175,17 +260,28 @@ class _G:
       self.tree()
     if r.random() < 0.7:
       self.flat_class()
+    if r.random() < 0.8:
+      self.generics()
+    if r.random() < 0.8:
+      self.collections_block()
     for _ in range(r.randint(1, 3)):
       self.out.append(f"{self.nm('v')} = {self.lit()}")
     return "\n".join(self.out) + "\n"
 
 
-def generate(rng: random.Random) -> str:
+def generate_with_pairs(rng: random.Random):
+  """(source, pairs).  pair = (name A binds to an expression, the same expression as the
+  downstream module writes it, with `{M}` for the module reference)."""
   for _ in range(10):
-    src = _G(rng).build()
+    g = _G(rng)
+    src = g.build()
     try:
       compile(src, "<c06-feature>", "exec", dont_inherit=True)
-      return src
+      return src, list(g.pairs)
     except SyntaxError:
       continue
-  return "def f(*, a=1, b):\n    return b\nclass T:\n    class N:\n        w = 1\nn = T.N()\nv = 1\n"
+  return ("def f(*, a=1, b):\n    return b\nclass T:\n    class N:\n        w = 1\nn = T.N()\nv = 1\n", [])
+
+
+def generate(rng: random.Random) -> str:
+  return generate_with_pairs(rng)[0]
